@@ -250,6 +250,31 @@ func (b *Body) nativeCall(v ssa.Value, key string, c *ssa.CallCommon, args []*Va
 		b.recordWrite(blk, reg, mi.X)
 		ft.trusted["sort.Slice (modelled natively: the slice's elements are permuted; the order produced and the less function's effects are not modelled)"] = true
 		return true
+	case "errors.As":
+		// errors.As(err, &target): on success target holds a non-nil value of
+		// its type; the target cell is arbitrary otherwise
+		if len(c.Args) != 2 {
+			return false
+		}
+		mi, ok := c.Args[1].(*ssa.MakeInterface)
+		if !ok {
+			return false
+		}
+		r := b.declVal(v)
+		if ad := ft.addrOf(b.val(mi.X)); ad != nil {
+			cellSort := ad.RootSort
+			if len(ad.Path) > 0 {
+				cellSort = ad.Path[len(ad.Path)-1].Sort
+			}
+			nv := ft.fresh("as", cellSort)
+			b.store(st, ad, nv, blk)
+			if cellSort == "Ref" {
+				ft.fact(Imp(r.T, Not(Eq(nv, L("nil")))))
+			}
+		}
+		ft.fact(Imp(Eq(args[0].T, L("nil.Iface")), Not(r.T)))
+		ft.trusted["errors.As (modelled natively: on success the target holds a non-nil value; which error of the chain is not modelled)"] = true
+		return true
 	case "slices.IndexFunc":
 		if len(args) != 2 || args[1].Clos == nil {
 			return false
